@@ -151,7 +151,9 @@ impl Node {
         } else {
             None
         };
-        let handle = ckb_async_runtime::new_background_runtime();
+        // one runtime for every node of the process: a runtime per node leaks its 16 worker threads
+        static RT: std::sync::OnceLock<ckb_async_runtime::Handle> = std::sync::OnceLock::new();
+        let handle = RT.get_or_init(ckb_async_runtime::new_background_runtime).clone();
         let (shared, mut pack) = SharedBuilder::new("hx", dir, &db_config, ancient, handle, consensus.clone())
             .expect("open db")
             .header_map_tmp_dir(Some(dir.join("header_map")))
